@@ -516,6 +516,11 @@ func ruleC13parts(p *Prog, r *Res, ruleB string, partA, partB bool) {
 					if src != nil {
 						why = "receiver derives from " + src.Name()
 					}
+					if src != nil && !okLocal {
+						if okc, whyc := localAtCallSites(p, root, src, 1); okc {
+							okLocal, why = true, "cleanup helper: receiver derives from parameter "+src.Name()+"; "+whyc
+						}
+					}
 				}
 				r.Check(okLocal, ruleD, key, p.Pos(c), why+" (created in this function)", "Reader.Close called on a reader this function did not create ("+why+"): a reader that views or jobs still use could be closed")
 			}
@@ -545,6 +550,69 @@ func localSource(info *types.Info, root *Fn, obj types.Object) types.Object {
 		return true
 	})
 	return src
+}
+
+// localAtCallSites: obj is a parameter of the unexported, declared function f; reports whether at every static call
+// site of f the corresponding argument derives (through range loops and sub-slices) from a variable created in the
+// calling function — followed through at most `depth` further helper levels. A cleanup helper such as
+// discardWriters(ws) inherits the justification of its callers.
+func localAtCallSites(p *Prog, f *Fn, obj types.Object, depth int) (bool, string) {
+	if f.Lit != nil || f.Decl == nil || ast.IsExported(f.Decl.Name.Name) || depth < 0 {
+		return false, ""
+	}
+	idx := paramIndex(f, obj)
+	if idx < 0 {
+		return false, ""
+	}
+	fobj, _ := f.Pkg.TypesInfo.Defs[f.Decl.Name].(*types.Func)
+	if fobj == nil {
+		return false, ""
+	}
+	n := 0
+	var callers []string
+	for _, g := range p.FnList {
+		if g.Body() == nil || g.Pkg != f.Pkg {
+			continue
+		}
+		ginfo := g.Pkg.TypesInfo
+		for _, c := range func() []*ast.CallExpr {
+			var out []*ast.CallExpr
+			inspectShallow(g.Body(), func(x ast.Node) bool {
+				if c, ok := x.(*ast.CallExpr); ok {
+					out = append(out, c)
+				}
+				return true
+			})
+			return out
+		}() {
+			if fn := p.Callee(g.Pkg, c); fn == nil || fn.Origin() != fobj || idx >= len(c.Args) {
+				continue
+			}
+			n++
+			a := ast.Unparen(c.Args[idx])
+			if sl, ok := a.(*ast.SliceExpr); ok {
+				a = ast.Unparen(sl.X)
+			}
+			ao := identObj(ginfo, a)
+			if ao == nil {
+				return false, "argument " + types.ExprString(c.Args[idx]) + " in " + g.Key() + " is not a variable"
+			}
+			src := localSource(ginfo, g.Root(), ao)
+			if src == nil {
+				return false, "provenance of " + ao.Name() + " in " + g.Key() + " unknown"
+			}
+			if paramIndexDeep(g, src) >= 0 {
+				if ok, _ := localAtCallSites(p, g.Root(), src, depth-1); !ok {
+					return false, src.Name() + " is itself a parameter of " + g.Key()
+				}
+			}
+			callers = append(callers, g.Key()+":"+src.Name())
+		}
+	}
+	if n == 0 {
+		return false, "no call site found"
+	}
+	return true, "at every call site the argument was created by the caller (" + strings.Join(callers, ", ") + ")"
 }
 
 // paramIndexDeep: obj is a parameter or receiver of f or of any enclosing function.
